@@ -12,7 +12,7 @@ except Exception:
     meta = {}
 meta["property"] = prop
 meta["confirmed_by_framework_author"] = {
-    "procedure": "tools/verify_seed.sh: clean tree demo exit 0; patch applied: test suite 43 passed (baseline failures unchanged), demo exit != 0; checks run with STBEM_REPO=<patched scratch worktree>",
+    "procedure": "tools/verify_seed.sh: clean tree demo exit 0; patch applied: full pytest run identical to the unmodified tree (48 passed incl. the 43 pinned tests; the 3 baseline failures and the collection error unchanged), demo exit != 0; checks run with STBEM_REPO=<patched scratch worktree>",
     "caught_by": [c for c in caught.split(",") if c],
     "note": note,
 }
